@@ -223,7 +223,22 @@ pub fn gen(rng: &mut Rng, n: usize, sink: &mut Sink, focus: &str) {
                 let a = sink.exec(&format!("query {} isOperatorProposalApproved {}", hex::encode(&gaddr), args(&[p.target.clone(), p.call_data.clone(), nat(p.value)])));
                 approved[k] = parse_hex_u64(&a) == 1;
             } else if r < w_cmd + w_exec {
-                // dispatch attempt, at a time chosen relative to the eta
+                // dispatch attempt, at a time chosen relative to the eta; half of the time a proposal that is not live
+                // yet is first scheduled / approved by a valid command, so that dispatches (and everything after
+                // them: deliveries, callbacks, refunds, repeated dispatch) are frequent
+                if rng.chance(1, 2) && ((operator_path && !approved[k]) || (!operator_path && etas[k] == 0)) {
+                    let cmd = if operator_path { 2u8 } else { 0u8 };
+                    let eta = *rng.pick(&[0u64, now, now + 50]);
+                    let payload = execute_payload(cmd, &p, eta);
+                    let (out, id) = g.command(rng, sink, &payload, true, GOV_CHAIN, GOV_ADDR, &user(1), None);
+                    if out.starts_with("ok") {
+                        used_ids.push((id, payload.clone()));
+                    }
+                    let e = sink.exec(&format!("query {} getProposalEta {}", hex::encode(&gaddr), args(&[p.target.clone(), p.call_data.clone(), nat(p.value)])));
+                    etas[k] = parse_hex_u64(&e);
+                    let a = sink.exec(&format!("query {} isOperatorProposalApproved {}", hex::encode(&gaddr), args(&[p.target.clone(), p.call_data.clone(), nat(p.value)])));
+                    approved[k] = parse_hex_u64(&a) == 1;
+                }
                 if etas[k] > 0 && rng.chance(2, 3) {
                     let t = *rng.pick(&[etas[k].saturating_sub(1), etas[k], etas[k] + 1]);
                     if t >= now {
@@ -247,6 +262,24 @@ pub fn gen(rng: &mut Rng, n: usize, sink: &mut Sink, focus: &str) {
                     user(rng.below(6) as u8)
                 };
                 let func = if operator_path { "executeOperatorProposal" } else { "executeProposal" };
+                if rng.chance(1, 12) {
+                    // the same bytes split differently between call data and value (and target): must be another proposal
+                    let mut cd2 = p.call_data.clone();
+                    cd2.extend(nat(p.value));
+                    let out = sink.exec(&format!("tx {} {} {} 0 - {}", hex::encode(&caller), hex::encode(&gaddr), func, args(&[p.target.clone(), cd2, nat(0)])));
+                    if out.starts_with("ok") && !out.ends_with("pend=-") {
+                        pend.push((next_pend, k, false));
+                        next_pend += 1;
+                    }
+                    if !p.call_data.is_empty() {
+                        let (a, b) = p.call_data.split_at(p.call_data.len() - 1);
+                        let out = sink.exec(&format!("tx {} {} {} 0 - {}", hex::encode(&caller), hex::encode(&gaddr), func, args(&[p.target.clone(), a.to_vec(), nat(b[0] as u128 * 256u128.pow(nat(p.value).len() as u32) + p.value)])));
+                        if out.starts_with("ok") && !out.ends_with("pend=-") {
+                            pend.push((next_pend, k, false));
+                            next_pend += 1;
+                        }
+                    }
+                }
                 let out = sink.exec(&format!(
                     "tx {} {} {} {} {} {}",
                     hex::encode(&caller),
